@@ -305,13 +305,15 @@ Lemma lookup_number r loopMS c n now :
   lookup r loopMS c ByNumber (startNr c + n) now = segMetaFromNr r loopMS c (startNr c + n) now.
 Proof.
   intros Hn Hs Hr. unfold lookup. rewrite !u32_id by lia.
+  destruct (startNr c + n >? maxu32) eqn:E0; [unfold maxu32, two32 in *; lia|]. cbn [orb].
   destruct (startNr c + n <? startNr c) eqn:E; [lia|reflexivity].
 Qed.
 
 Lemma lookup_below_start r loopMS c id now :
   0 <= id < startNr c -> startNr c < two32 -> lookup r loopMS c ByNumber id now = TNotFound.
 Proof.
-  intros H1 H2. unfold lookup. rewrite !u32_id by lia. destruct (id <? startNr c) eqn:E; [reflexivity|lia].
+  intros H1 H2. unfold lookup. rewrite !u32_id by lia.
+  destruct (id >? maxu32) eqn:E0; [reflexivity|]. cbn [orb]. destruct (id <? startNr c) eqn:E; [reflexivity|lia].
 Qed.
 
 Lemma lookup_time r loopMS c t now : 0 <= t < two64 ->
